@@ -448,6 +448,18 @@ impl private::StoreCallbacks<Annotation> for AnnotationStore {
                 };
             }
 
+            //an annotation may reach the same item via multiple subselectors, it must be indexed only once
+            target_annotations.sort_unstable();
+            target_annotations.dedup();
+            target_meta_resources.sort_unstable();
+            target_meta_resources.dedup();
+            target_meta_datasets.sort_unstable();
+            target_meta_datasets.dedup();
+            target_meta_keys.sort_unstable();
+            target_meta_keys.dedup();
+            target_meta_data.sort_unstable();
+            target_meta_data.dedup();
+
             if self.config.annotation_annotation_map {
                 self.annotation_annotation_map
                     .extend(target_annotations.into_iter());
